@@ -450,6 +450,8 @@ class Run:
         }
         if old:
             ev["coverage"]["known_findings_observed"] = sorted(seen)
+        if self.notes:
+            ev["coverage"]["notes"] = list(self.notes)
         with open(os.path.join(EVIDENCE, self.pid + ".json"), "w") as f:
             json.dump(ev, f, indent=1, default=str)
         if new:
